@@ -12,6 +12,7 @@ import (
 	"math/rand"
 	"os"
 	"strings"
+	"sync"
 
 	"github.com/sarchlab/akita/v4/mem/mem"
 	"github.com/sarchlab/akita/v4/mem/vm"
@@ -33,8 +34,9 @@ type Scenario struct {
 	Hold     []string `json:"hold"`     // "kind@point" entries granted only when nothing else can run
 	Reverse  bool     `json:"reverse"`  // tie-break order
 	Seed     int64    `json:"seed"`
-	Temp     []int    `json:"temp"` // application threads (1-based) that use the blocking API (a fresh queue per round) in one shared context
-	Two      []int    `json:"two"`  // application threads (1-based) whose commands are two-phase memory copies answered by a stub GPU
+	Temp     []int    `json:"temp"`     // application threads (1-based) that use the blocking API (a fresh queue per round) in one shared context
+	Drainers []int    `json:"drainers"` // application threads (1-based) that own no queue and only drain the queue of thread 1
+	Two      []int    `json:"two"`      // application threads (1-based) whose commands are two-phase memory copies answered by a stub GPU
 }
 
 type runner struct {
@@ -43,6 +45,7 @@ type runner struct {
 	eng    *sched.Engine
 	d      *driver.Driver
 	queues []*driver.CommandQueue // newest queue of each application thread (nil before its first creation)
+	omu    sync.Mutex             // guards owner, queues, nq: the yield hook runs on every instrumented goroutine
 	owner  map[*driver.CommandQueue]int
 	nq     int
 	// stub GPU (two-phase commands)
@@ -73,6 +76,8 @@ func (r *runner) qKey(q *driver.CommandQueue) int {
 	if q == nil {
 		return 0
 	}
+	r.omu.Lock()
+	defer r.omu.Unlock()
 	o, ok := r.owner[q]
 	if !ok {
 		return 0
@@ -82,6 +87,15 @@ func (r *runner) qKey(q *driver.CommandQueue) int {
 		live = 1
 	}
 	return 10*o + live
+}
+
+func (r *runner) isDrainer(a int) bool {
+	for _, t := range r.sc.Drainers {
+		if t == a {
+			return true
+		}
+	}
+	return false
 }
 
 func (r *runner) isTwo(a int) bool {
@@ -369,6 +383,9 @@ func runScenario(rec *ab.Recorder, sc Scenario) (hang bool, steps int, err error
 			ptrs[a] = r.d.AllocateMemory(ctx, 64)
 			continue
 		}
+		if r.isDrainer(a + 1) {
+			continue
+		}
 		if r.isTwo(a + 1) {
 			ptrs[a] = r.d.AllocateMemory(ctx, 64)
 		}
@@ -379,9 +396,11 @@ func runScenario(rec *ab.Recorder, sc Scenario) (hang bool, steps int, err error
 	}
 	temp := append([]int{}, sc.Temp...)
 	two := append([]int{}, sc.Two...)
-	rec.Emit("Reset", ab.Rec{"na": sc.NA, "rounds": sc.Rounds, "per_round": sc.PerRound, "temp": temp, "two": two})
+	drainers := append([]int{}, sc.Drainers...)
+	rec.Emit("Reset", ab.Rec{"na": sc.NA, "rounds": sc.Rounds, "per_round": sc.PerRound, "temp": temp, "two": two, "drainers": drainers})
 	driver.VerifYield = func(point string, q *driver.CommandQueue) {
 		if q != nil {
+			r.omu.Lock()
 			if _, ok := r.owner[q]; !ok {
 				// a queue created inside a blocking API call: first seen when its creator enqueues
 				var idx int
@@ -391,6 +410,7 @@ func runScenario(rec *ab.Recorder, sc Scenario) (hang bool, steps int, err error
 					r.nq++
 				}
 			}
+			r.omu.Unlock()
 		}
 		r.S.Yield(point, q)
 	}
@@ -403,6 +423,11 @@ func runScenario(rec *ab.Recorder, sc Scenario) (hang bool, steps int, err error
 			q := r.queues[a]
 			n := 0
 			for rd := 0; rd < sc.Rounds; rd++ {
+				if r.isDrainer(a + 1) {
+					// a second thread waiting for the queue of thread 1
+					r.d.DrainCommandQueue(r.queues[0])
+					continue
+				}
 				if r.isTemp(a + 1) {
 					// blocking API style: CreateCommandQueue; Enqueue; DrainCommandQueue inside MemCopyH2D
 					r.S.Yield("create", nil)
